@@ -16,7 +16,22 @@ CHECKS = {}
 HARNESS_KW = {
     "h_arena": {"libs": ["-Wl,--wrap=mmap,--wrap=munmap,--wrap=mprotect,--wrap=madvise"]},
     "h_lowlevel": {"libs": ["-Wl,--wrap=malloc,--wrap=mmap,--wrap=mprotect"]},
+    "h_tempsrc": {"libs": ["-Wl,--wrap=malloc,--wrap=free"]},
 }
+
+# histories with a FAILED growth of a growing block source (the failure must leave block size / next_capacity / the stack's
+# behaviour after unwind alone): not run through _shrink, the histories need three requests to reach a growth
+def growfail_jobs(tier, cfgs, twin=1):
+    out = []
+    for cfg in cfgs:
+        out.append(J("h_stack", cfg, f"--src growing --bs 64 --reqs 8x8,24x1 --L 3 --B 3 --markers {2 if twin else 1} --arena 1024 --tries 1 --faults 1 --twin {twin}",
+                     name=f"stack/growing+failed-growth[{cfg}]", need=("alloc_upstream_failure", "grew")))
+        if not twin:
+            out.append(J("h_pool", cfg, "--type node --src growing --ns 16 --bs 64 --L 3 --B 2 --arrays 2 --arena 1024 --tries 1 --faults 1 --max_states 400000",
+                         name=f"pool/node/growing+failed-growth[{cfg}]", need=("alloc_upstream_failure", "grew")))
+            out.append(J("h_coll", cfg, "--type array --buckets log2 --src growing --maxns 16 --bs 192 --sizes 8,16 --arrays 3x8 --L 3 --B 2 --arena 2048 --tries 1 --faults 1",
+                         name=f"coll/array/growing+failed-growth[{cfg}]", need=("alloc_upstream_failure", "grew")))
+    return out
 
 # monitor -> properties whose statement the monitor implements
 MON_OWNERS = {
@@ -234,7 +249,7 @@ def pool_suite(tier, cfgs, extra="", fams=("member",), need=()):
         for fam in fams:
             if fam == "member":
                 shapes = [
-                    ("node", "constant", "--ns 16 --bs 64 --L 4 --B 2 --arrays 2", ("grew",)),
+                    ("node", "constant", "--ns 16 --bs 64 --L 4 --B 2 --arrays 1,2", ("grew",)),  # array of ONE node: same boundary as a node
                     ("node", "constant", "--ns 16 --bs 96 --L 3 --B 2 --arrays 3 --max_states 400000", ("grew",)),
                     ("node", "fixed", "--ns 16 --bs 96 --L 6 --B 2 --arrays 2", ("alloc_oom",)),
                     ("array", "constant", "--ns 16 --bs 80 --L 5 --B 3 --arrays 2", ("grew",)),
@@ -245,6 +260,8 @@ def pool_suite(tier, cfgs, extra="", fams=("member",), need=()):
                     # non-monotonic block addresses (third block between the first two), three chunks of a small-node pool
                     ("small", "constant", "--ns 1 --bs 304 --L 3 --B 3 --bulk 254 --bulk_rounds 3 --arena 2048 --place alt --snap 1 --destroy 0 --max_states 100000", ("grew", "bulk_allocated")),
                     ("array", "constant", "--ns 16 --bs 80 --L 4 --B 3 --arrays 2 --place alt", ("grew",)),
+                    # descending block addresses and blocks of TWO chunks: a new run of chunks is linked in front of existing ones
+                    ("small", "constant", "--ns 1 --bs 576 --L 1 --B 2 --bulk 255 --bulk_rounds 3 --arena 2048 --place desc --snap 1 --destroy 0 --max_states 30000", ("grew", "bulk_allocated")),
                 ]
                 if not q:
                     shapes += [
@@ -264,10 +281,12 @@ def pool_suite(tier, cfgs, extra="", fams=("member",), need=()):
                         ("small", "constant", "--ns 1 --bs 304 --L 3 --B 3 --bulk 254 --bulk_rounds 3 --arena 2048 --place alt --snap 1 --max_states 1500000", ("grew", "bulk_allocated")),
                         ("array", "constant", "--ns 16 --bs 80 --L 5 --B 3 --arrays 2,3 --place alt", ("grew",)),
                         ("node", "constant", "--ns 16 --bs 80 --L 4 --B 3 --arrays 2 --place alt", ("grew",)),
+                        ("small", "constant", "--ns 1 --bs 576 --L 2 --B 2 --bulk 255 --bulk_rounds 3 --arena 2048 --place desc --snap 1 --max_states 400000", ("grew", "bulk_allocated")),
+                        ("array", "constant", "--ns 16 --bs 80 --L 5 --B 3 --arrays 2 --place desc", ("grew",)),
                     ]
             elif fam == "traits":
                 shapes = [
-                    ("node", "constant", "--fam traits --ns 16 --bs 64 --L 4 --B 2 --sizes 16,8 --tarrays 3x8", ("grew",)),
+                    ("node", "constant", "--fam traits --ns 16 --bs 64 --L 4 --B 2 --sizes 16,8 --tarrays 3x8,2x8", ("grew",)),  # 2x8: array whose total size is exactly one node
                     ("array", "constant", "--fam traits --ns 16 --bs 80 --L 4 --B 2 --sizes 16,5 --tarrays 3x8,5x4", ("grew",)),
                     ("small", "fixed", "--fam traits --ns 1 --bs 304 --L 3 --B 2 --sizes 1 --bulk 254 --arena 4096 --snap 1", ("alloc_oom",)),
                 ]
@@ -342,6 +361,8 @@ def stack_suite(tier, cfgs, extra="", fams=("member",), need=()):
                 ("constant", "--bs 64 --reqs 100x1,13x16,3x1 --L 4 --B 3 --markers 1", ("alloc_bad_size",)),
                 ("constant", "--bs 64 --reqs 40x32,8x8 --L 3 --B 3 --markers 1", ("alloc_bad_size",)),
                 ("fixed", "--bs 96 --reqs 13x1,8x16,3x32 --L 5 --B 2 --markers 2", ("alloc_oom",)),
+                # newer blocks at LOWER addresses than older ones (marker order must follow allocation order, not addresses)
+                ("constant", "--bs 64 --reqs 40x1,8x8 --L 4 --B 4 --markers 2 --place alt", ("unwound_across_blocks",)),
             ]
             if not q:
                 shapes += [
@@ -349,7 +370,7 @@ def stack_suite(tier, cfgs, extra="", fams=("member",), need=()):
                     ("growing", "--bs 80 --reqs 13x16,40x1 --L 4 --B 3 --markers 3", ("unwound_across_blocks",)),
                     ("constant", "--bs 64 --reqs 40x1,8x8,1x1 --L 5 --B 4 --markers 3", ("unwound_across_blocks",)),
                     ("constant", "--bs 96 --reqs 24x32,8x8 --L 4 --B 3 --markers 2 --objhi 1", ("unwound_across_blocks",)),
-                    ("constant", "--bs 64 --reqs 40x1,8x8 --L 4 --B 4 --markers 2 --place alt", ("unwound_across_blocks",)),
+                    ("growing", "--bs 64 --reqs 8x8,24x1 --L 4 --B 3 --markers 2 --place alt", ("unwound_across_blocks",)),
                     ("fixed", "--bs 128 --reqs 13x1,8x16,3x64 --L 6 --B 2 --markers 2", ("alloc_oom",)),
                 ]
             if q and cfg != cfgs[0]:
@@ -457,6 +478,8 @@ def check_C03(prop, tier, only):
 def check_C04(prop, tier, only):
     c = cfgs_for(tier)
     jobs = pool_suite(tier, c, extra="--tries 1", fams=("member", "traits")) + coll_suite(tier, c, extra="--tries 1", fams=("member", "traits"))
+    # composable release (try_deallocate_*): a node the pool owns must go back to its list (sizes include max_node_size itself)
+    jobs += pool_suite(tier, c[:1], extra="--tries 1", fams=("compose",)) + coll_suite(tier, c[:1], extra="--tries 1", fams=("compose",))
     for j in jobs:
         j["own"] = ["M-noreport"]  # a valid release that the pool rejects as invalid is memory that does not become available again
     return run_explore_check(prop, tier, jobs, only, note=NOTE_BFS +
@@ -473,7 +496,10 @@ def check_C05(prop, tier, only):
     jobs = (aj
             + pool_suite(tier, c[:2], extra="--faults 1") + coll_suite(tier, c[:1], extra="--faults 1") + stack_suite(tier, c[:2], extra="--faults 1")
             + iter_suite(tier, c[:1], extra="--moves 2"))
-    return run_explore_check(prop, tier, jobs, only, note=NOTE_BFS +
+    import tempsrc_jobs
+    return run_explore_check(prop, tier, jobs, only, enum_jobs=tempsrc_jobs.jobs_tempsrc(tier), note=NOTE_BFS +
+                             "temporary stack as a block source client (h_tempsrc): all nested temporary_allocator scope sequences with shrink_to_fit requests; "
+                             "virtual block source: page commit state model (a block is given back by decommitting exactly the pages its acquisition committed); "
                              "memory_arena<cached|uncached> driven directly over growing/constant/fixed/static sources wrapped in a logging BlockAllocator, plus "
                              "pools/collections/stacks/iteration allocators over the logging raw upstream; M-upstream: every block returned exactly once with the "
                              "same address/size/parameters, most recent outstanding block first (LIFO), cache used before the source, nothing outstanding after "
@@ -482,7 +508,7 @@ def check_C05(prop, tier, only):
 
 def check_C06(prop, tier, only):
     c = cfgs_for(tier)
-    jobs = stack_suite(tier, c, extra="--tries 1") + stack_suite(tier, c[:1], extra="--moves 2")
+    jobs = stack_suite(tier, c, extra="--tries 1") + stack_suite(tier, c[:1], extra="--moves 2") + growfail_jobs(tier, c[:1] if tier == "quick" else c)
     for j in jobs:
         j["own"] = ["M-upstream", "M-noreport", "M-content", "M-inside", "M-disjoint"]  # a valid unwind that is reported as invalid did not restore the state; "blocks freed by unwinding are kept for reuse until shrink_to_fit": block/cache accounting of the stack
     return run_explore_check(prop, tier, jobs, only, note=NOTE_BFS +
@@ -508,6 +534,12 @@ def check_C12(prop, tier, only):
     x = "--moves 2"
     jobs = (pool_suite(tier, c, extra=x, fams=("member",)) + coll_suite(tier, c, extra=x) + stack_suite(tier, c, extra=x)
             + iter_suite(tier, c[:2], extra=x) + arena_suite(tier, c, extra=x) + static_suite(tier, c[:1], extra=x))
+    # moves between DIFFERENTLY shaped collections (the second object has another max_node_size: every member that describes the
+    # array of free lists has to move, not only the pointer)
+    for cfg in (c[:1] if tier == "quick" else c):
+        for a_, b_ in ((16, 8), (8, 16)):
+            jobs.append(J("h_coll", cfg, f"--type array --buckets log2 --src constant --maxns {a_} --maxns2 {b_} --bs 192 --sizes 8,16 --L 2 --B 2 --arena 2048 --moves 2",
+                          name=f"coll/array/log2/constant[{cfg}] maxns {a_} vs {b_} --moves 2", need=("moveassigned_while_nonempty", "swapped"), moves=True))
     return run_explore_check(prop, tier, jobs, only, note=NOTE_BFS +
                              "two object slots; alphabet adds construct / move-construct / move-assign (onto empty, non-empty and moved-from targets) / swap / "
                              "destroy (also of moved-from objects) at every reachable state, up to 2 moves per history; all memory-safety and upstream monitors "
@@ -520,7 +552,12 @@ def check_C15(prop, tier, only):
             + stack_suite(tier, c, fams=("traits",)) + stack_suite(tier, c[:1], extra="--moves 2", fams=("traits",))
             + coll_suite(tier, c[:1], extra="--moves 2", fams=("traits",)))
     ej = [J("h_lowlevel", cfg, "--mode leak", name=f"lowlevel-leak[{cfg}]") for cfg in c]
+    # the process-wide balance of the stateless allocators is shared by all threads: every schedule of two/three threads that
+    # allocate and release through the same allocator type must end with the balance it started with (scheduler + atomic shim of C13)
+    ej += [J("h_tsafe_ll", cfg, "--ll", name=f"lowlevel-leak-balance-threads[{cfg}]") for cfg in (("dbg",) if tier == "quick" else ("dbg", "rwd"))]
     return run_explore_check(prop, tier, jobs, only, enum_jobs=ej, note=NOTE_BFS +
+                             "shared leak balance under threads: all schedules (preemption-bounded, every atomic operation of the low-level allocator TUs a scheduling point) of "
+                             "threads using one stateless allocator type; "
                              "stateless low-level allocators: every multiset of <= 2/3 allocations x every released subset runs in a forked child that exits normally, "
                              "the leak handler must fire once per allocator with the exact net (incl. the fences the allocator obtained) or not at all; " +
                              "allocator_traits family only; ledger net = sum of traits allocations - deallocations per object identity as moved; M-leak: on "
@@ -530,7 +567,8 @@ def check_C15(prop, tier, only):
 def check_C18_explore_jobs(tier):
     c = cfgs_for(tier)
     return (pool_suite(tier, c, extra="--tries 1", fams=("member", "traits")) + coll_suite(tier, c, fams=("member", "traits"))
-            + stack_suite(tier, c, extra="--tries 1") + iter_suite(tier, c[:2]) + arena_suite(tier, c[:1]))
+            + stack_suite(tier, c, extra="--tries 1") + iter_suite(tier, c[:2]) + arena_suite(tier, c[:1])
+            + growfail_jobs(tier, c[:1] if tier == "quick" else c, twin=0))
 
 
 def check_C16(prop, tier, only):
@@ -603,6 +641,14 @@ CHECKS["C15"] = check_C15
 
 
 # ------------------------------------------------------------------ enumeration-style checks
+def _build_enum_harness(h, cfg, harness_kw=None):
+    """harnesses that are not a single TU linked against the library have their own build function"""
+    if h == "h_tsafe_ll":
+        import check_C13
+        return check_C13._build_ll(cfg)
+    return vlib.build_harness(f"harness/{h}.cpp", cfg, **(harness_kw or HARNESS_KW.get(h, {})))
+
+
 def _run_enum(prop, tier, jobs, budget=None, harness_kw=None):
     """runs enumeration harness jobs; returns (coverage dict, violations [(replay path, rec)], known lines, errors)"""
     budget = budget or (150 if tier == "quick" else 1500)
@@ -610,7 +656,7 @@ def _run_enum(prop, tier, jobs, budget=None, harness_kw=None):
     exes = {}
     keys = sorted({(j["h"], j["cfg"]) for j in jobs})
     with cf.ThreadPoolExecutor(8) as ex:
-        futs = {ex.submit(vlib.build_harness, f"harness/{h}.cpp", cfg, **(harness_kw or HARNESS_KW.get(h, {}))): (h, cfg) for (h, cfg) in keys}
+        futs = {ex.submit(_build_enum_harness, h, cfg, harness_kw): (h, cfg) for (h, cfg) in keys}
         for f in cf.as_completed(futs):
             exes[futs[f]] = f.result()
     argv_jobs = [(j["name"], [exes[(j["h"], j["cfg"])]] + shlex.split(j["args"]) + ["--tier", tier]) for j in jobs]
@@ -683,7 +729,7 @@ def _report_enum_viol(prop, viol, errors):
 
 
 def replay_enum(rec):
-    exe = vlib.build_harness(f"harness/{rec['harness']}.cpp", rec["cfg"], **HARNESS_KW.get(rec["harness"], {}))
+    exe = _build_enum_harness(rec["harness"], rec["cfg"])
     argv = [exe] + shlex.split(rec["args"]) + ["--replay", json.dumps(rec["input"])]
     print("replaying:", " ".join(shlex.quote(a) for a in argv))
     print("expected :", rec["tag"], "-", rec["detail"])
